@@ -108,7 +108,7 @@ pub fn tape_checks(ctx: &Ctx) -> Vec<(&'static str, Box<CheckFn<'_>>)> {
 		(
 			"len-values",
 			Box::new(move |g: &mut Gen, stats: &mut Stats| {
-				let e = *g.pick(&lens);
+				let e = pick_entry(g, &lens);
 				let mut cfg = GenCfg { budget: 40_000, ..GenCfg::default() };
 				let v = gen_val(&e.ty, g, &mut cfg);
 				check_len_value(e, &v, stats)
@@ -117,7 +117,7 @@ pub fn tape_checks(ctx: &Ctx) -> Vec<(&'static str, Box<CheckFn<'_>>)> {
 		(
 			"len-bytes",
 			Box::new(move |g: &mut Gen, stats: &mut Stats| {
-				let e = *g.pick(&lens2);
+				let e = pick_entry(g, &lens2);
 				let (bytes, _) = gen_input(&Ty::Compact(32), g, 8);
 				check_len_bytes(e, &bytes, stats)
 			}),
@@ -125,7 +125,7 @@ pub fn tape_checks(ctx: &Ctx) -> Vec<(&'static str, Box<CheckFn<'_>>)> {
 		(
 			"skip",
 			Box::new(move |g: &mut Gen, stats: &mut Stats| {
-				let e = *g.pick(&decs);
+				let e = pick_entry(g, &decs);
 				let (mut bytes, family) = gen_input(&e.ty, g, 128);
 				if e.is_recursive() && bytes.len() > 256 {
 					bytes.truncate(256);
